@@ -451,10 +451,23 @@ def isolated_seed(prop, tier, seed, walpath):
         with open(walpath, 'w') as wal:
             res = run_seed(seed, PROFILES[prop], tier, known, scratch,
                            OWNERS[prop], wal=wal)
-        with open(walpath + '.result', 'w') as f:
-            json.dump({'viol': res['viol'], 'cfg': {k: v for k, v in
-                                                    res['cfg'].items()
-                                                    if k != 'scratch'}}, f)
+        cfg_out = {k: v for k, v in res['cfg'].items() if k != 'scratch'}
+
+        def dump(viol, events):
+            tmpf = walpath + '.result.tmp'
+            with open(tmpf, 'w') as f:
+                json.dump({'viol': viol, 'cfg': cfg_out, 'events': events}, f)
+                f.flush()
+                os.fsync(f.fileno())
+            os.replace(tmpf, walpath + '.result')
+        v = res['viol']
+        dump(v, res['events'][:v['event'] + 1] if v else None)
+        if v and owns(OWNERS[prop], v['oracle']):
+            # minimise here, never in the parent: the library under test may
+            # corrupt the heap; the unminimised result is already durable
+            small, sv, _ = shrink(res['events'], res['cfg'], known, v,
+                                  budget_s=15, owners=OWNERS[prop])
+            dump(sv, small)
     finally:
         os.chdir('/')
         shutil.rmtree(scratch, ignore_errors=True)
@@ -487,21 +500,16 @@ def isolate_crash(prop, tier, seeds, owners, max_found=2):
             # counts (the crashed pool lost every worker's results)
             try:
                 res = json.load(open(wal + '.result'))
-                events = [json.loads(ln) for ln in open(wal) if ln.strip()]
             finally:
-                os.unlink(wal)
-                os.unlink(wal + '.result')
+                for pth in (wal, wal + '.result', wal + '.result.tmp'):
+                    if os.path.exists(pth):
+                        os.unlink(pth)
             v = res.get('viol')
             if v and owns(owners, v['oracle']) and len(found) < max_found:
                 cfg = dict(res['cfg'])
-                small = events[:v['event'] + 1]
-                try:
-                    small, v, _ = shrink(small, cfg, load_known(), v,
-                                         budget_s=15, owners=owners)
-                except Exception:  # noqa
-                    pass
+                small = res.get('events') or []
                 path = write_replay(prop, seed, small, cfg, v,
-                                    'after-pool-crash', len(events))
+                                    'after-pool-crash', len(small))
                 found.append({'seed': seed, 'oracle': v['oracle'],
                               'detail': v['detail'][:500], 'replay': path,
                               'events': len(small)})
